@@ -24,14 +24,14 @@ Pbcs == {"ppp", "pfp", "fpf"}
 Systems == [cell : Cells, origin : BOOLEAN, place : Places, types : TypeSets, symbols : BOOLEAN, props : PropSets, pbc : Pbcs]
 
 \* options per format
-DataOpts == [atom_style : {"atomic", "charge", "full"}, units : {"metal", "si", "real"}, ff : {"%.13f", "%.5e"}]
+DataOpts == [atom_style : {"atomic", "charge", "full", "hybrid charge"}, units : {"metal", "si", "real"}, ff : {"%.13f", "%.5e"}]
 DumpOpts == [units : {"metal", "si"}, scaled : BOOLEAN, ff : {"%.13f", "%.13e"}]
 TableOpts == [withid : BOOLEAN, scaled : BOOLEAN, ff : {"%.13f"}]
 PoscarOpts == [style : {"direct", "cartesian"}, scale : {1, 2}, ff : {"%.13e"}]
 OptsOf(fmt) == CASE fmt = "atom_data" -> DataOpts [] fmt = "atom_dump" -> DumpOpts [] fmt = "table" -> TableOpts [] fmt = "poscar" -> PoscarOpts
 
 \* what a format can carry
-StyleProps(o) == IF o.atom_style \in {"charge", "full"} THEN {"charge"} ELSE {}
+StyleProps(o) == IF o.atom_style \in {"charge", "full", "hybrid charge"} THEN {"charge"} ELSE {}
 CarriedProps(fmt, o, s) ==
     CASE fmt = "atom_data" -> (s.props \cap ({"velocity"} \cup StyleProps(o)))
       [] fmt = "atom_dump" -> s.props
